@@ -1024,8 +1024,10 @@ func TestC09InstallCMap(t *testing.T) {
 				highest = max(highest, int64(c))
 			}
 			highestKey = highest
-			if rapid.IntRange(0, 5).Draw(t, "zeroAbove") == 0 {
-				lib[0x10000+uint32(rapid.IntRange(0, 0xFFFFF).Draw(t, "zeroAt"))] = 0
+			if rapid.IntRange(0, 5).Draw(t, "zeroAbove") == 5 {
+				if z := 0x10000 + uint32(rapid.IntRange(0, 0xFFFFF).Draw(t, "zeroAt")); m.m[z] == 0 {
+					lib[z] = 0 // an entry with glyph 0 maps nothing
+				}
 				for c := range lib {
 					highestKey = max(highestKey, int64(c))
 				}
